@@ -8,6 +8,7 @@ open Golem.Props.C10
 #print axioms forkfold_closed_after_value
 #print axioms forkfold_no_panic
 #print axioms forkfold_closes
+#print axioms forkfold_independent
 #print axioms gen_forkfold_caps
 #print axioms gen_forkfold_workers
 #print axioms gen_collector_at_wait
